@@ -213,11 +213,11 @@ class Body:
             if si == "term":
                 e = self.expr_of_call(rv, depth - 1, ty)
                 if name is not None:
-                    return ("var", name, e)
+                    return ("var", name, e, l)
                 return e
             e = self.expr_of_rvalue(rv, depth - 1, (bi, si))
             if name is not None:
-                return ("var", name, e)
+                return ("var", name, e, l)
             return e
         return ("local", l, name, ty)
 
@@ -476,3 +476,19 @@ class Facts:
 def short(e, n=160):
     s = repr(e)
     return s if len(s) <= n else s[: n - 3] + "..."
+
+
+def same_value(a, b):
+    """structural equality of expression trees, except that two references to the same
+    single-assignment user variable are equal regardless of how deep each was expanded"""
+    if isinstance(a, tuple) and isinstance(b, tuple) and a and b and a[0] == "var" and b[0] == "var":
+        return a[3] == b[3]
+    while isinstance(a, tuple) and a and a[0] == "var":
+        a = a[2]
+    while isinstance(b, tuple) and b and b[0] == "var":
+        b = b[2]
+    if isinstance(a, tuple) and isinstance(b, tuple):
+        if len(a) != len(b):
+            return False
+        return all(same_value(x, y) for x, y in zip(a, b))
+    return a == b
